@@ -16,6 +16,7 @@ RULE = (
     "an offline sequential model replays the log.  Bound objects: two-sided, lower, upper and custom expression on random points. "
     "non-trivial = history with >=1 tie, >=1 fixed and >=1 complex parameter; distinct = operation sequence digest."
 )
+RULE += '  Also: chains of overlapping tie statements plus one more statement (a parameter fixed before the ties stays outside the free set); coordinate switches observed through the density of loaded models (incl. CP-violating couplings).'
 ASSUMPTIONS = [
     "polar <-> Cartesian switches are not applied to complex parameters whose r or phi is separately tied or bounded; standardising (std_polar, std_polar_all, trans_params(True)) is applied to shared-radius parameters too",
     "values compared exactly for assignments/read-write-all, 1e-12 relative for coordinate switches, slopes vs central finite differences 1e-6",
